@@ -9,7 +9,7 @@ from vlib import (Inconclusive, NCPU, log, run, run_tlc, stage_spec, validate_tr
 
 H_INV = ["H_WellFormed"]
 M_INV = ["M_Values", "M_Heads", "M_Nidx", "M_ClockId", "M_Iterator"]
-M_PROP = ["M_Append", "M_AppendWriteFault", "M_Join", "M_SetIdentity", "M_Tamper", "M_Fork"]
+M_PROP = ["M_Append", "M_AppendWriteFault", "M_Join", "M_SetIdentity", "M_Tamper", "M_Fork", "M_Load"]
 
 # Layer-P operators of each property: (model invariants, model action properties,
 #                                      trace invariants, trace action properties)
@@ -30,7 +30,8 @@ OPS = {
              "C06_OnlyValidAdded", "C06_BadCandidateRejected", "C06_ValidJoinSucceeds"]),
     "C15": (["C15_AlgoMeetsSpec"], [], ["C15_IterMeetsSpec"], []),
     "C17": (["C17_LinksPointBack"], [], [],
-            ["C17_StoreClosed", "C17_WrittenBeforeReturned", "C17_Recoverable", "C17_PublishResult", "C17_FailedWriteLeavesLog"]),
+            ["C17_StoreClosed", "C17_StoreStaysClosed", "C17_WrittenBeforeReturned", "C17_Recoverable", "C17_StillRecoverable",
+             "C17_PublishResult", "C17_FailedWriteLeavesLog"]),
     "C18": ([], [], [], ["C18_NoClearLinks", "C18_SameKeyRecovers", "C18_OtherKeyGetsNothing", "C18_AuditedSomething",
                          "C06_AppendedVerifies", "C06_ValidJoinSucceeds"]),
     "C16": ([], ["C16_Bounded"], [], ["C16_NoPanic", "C16_LastN"]),
@@ -39,15 +40,15 @@ OPS = {
 
 def base_consts(**kw):
     c = dict(NR=3, Writer0=[1, 2, 1], Lid=["X", "X", "X"], Fn="LWW", MaxE=4, MaxOps=6, PCs={1},
-             Sizes=set(), Writers=set(), Denied=[set(), set(), set()], HashPerm="id", IterOn=set(), Evil=set(), Kinds=set(), MaxBad=0, PubOn=set(), WriteFaults=False, ForkOn=set())
+             Sizes=set(), Writers=set(), Denied=[set(), set(), set()], HashPerm="id", IterOn=set(), Evil=set(), Kinds=set(), MaxBad=0, PubOn=set(), WriteFaults=False, ForkOn=set(), LoadKinds=set())
     c.update(kw)
     return c
 
 
-def harness_cfg(consts, seed, codec="cbor", audit="", concurrency=0):
+def harness_cfg(consts, seed, codec="cbor", audit="", concurrency=0, payload=""):
     return {"Concurrency": concurrency, "NR": consts["NR"], "Writer0": list(consts["Writer0"]), "Lid": list(consts["Lid"]),
             "Fn": consts["Fn"], "Denied": [sorted(d) for d in consts["Denied"]], "Codec": codec, "Seed": seed,
-            "Audit": audit}
+            "Audit": audit, "Payload": payload}
 
 
 def explore(specdir, name, consts, invs, props, workers=NCPU, timeout=1500, simulate=None, seed=1):
@@ -219,7 +220,8 @@ def run_family_l(prop, tier, seed, report, scratch, binpath, plans):
             (plan["name"], res.generated, res.distinct, time.time() - t0, len(scripts)))
         if not scripts:
             raise Inconclusive("TLC exported no history for " + plan["name"])
-        hcfg = harness_cfg(consts, seed, plan.get("codec", "cbor"), plan.get("audit", ""), plan.get("concurrency", 0))
+        hcfg = harness_cfg(consts, seed, plan.get("codec", "cbor"), plan.get("audit", ""), plan.get("concurrency", 0),
+                           plan.get("payload", ""))
         t1 = time.time()
         try:
             trace = replay(binpath, scratch, plan["name"], hcfg, scripts, plan.get("mode", "last"),
